@@ -362,9 +362,9 @@ CHECKS["C14"] = dict(
     pkg="c14", level="exploration",
     engine="sim: simulated Redis Cluster with replicas; real proxy through proc.New",
     rule=("part names: enumeration of every name of the Redis 5.0 command table (transcribed with Redis's own write/readonly flags), of the "
-          "proxy's documented tables and a few others (~230 names) x 3 letter-case variants x 3 read strategies x {0,1,2} replicas per "
+          "proxy's documented tables and a few others (~230 names) x 3 letter-case variants and the inline form x 3 read strategies x {0,1,2} replicas per "
           "master, each sent with 1..3 arguments; part random: rapid-generated batches of 1..25 commands (names from those tables or "
-          "random, random letter case, 0..6 arguments, hash-tagged keys) against 1..3 masters with 0..2 replicas under a generated "
+          "random, random letter case, 0..6 arguments, hash-tagged keys; every 1st/2nd/3rd command in inline form in 3 of 5 cases) against 1..3 masters with 0..2 replicas under a generated "
           "read strategy; in a third of the layouts with replicas, 1..2 replica re-parentings (the k-th replica becomes a replica of "
           "another master) happen between commands, and the commands continue after the proxy refreshed its table twice. Oracle per "
           "command from the simulated nodes' logs (against the current replica sets): a name outside the documented supported set is answered by "
